@@ -562,6 +562,26 @@ Proof.
   rewrite IHfuel; auto. eapply extends_in_P; eauto.
 Qed.
 
+Lemma flat_types_in_P : forall fuel c k t, P c -> In (k, t) (flat_f fuel l c) -> P t.
+Proof.
+  induction fuel; simpl; intros c k t Pc HI; [contradiction |].
+  destruct (nth_cls l c) as [r |] eqn:N; [| contradiction].
+  destruct (CL _ _ Pc N) as [_ [_ Z]].
+  apply In_od_update in HI. destruct HI as [HI | HI].
+  - destruct (extends_f FUEL l c) as [e |] eqn:E; [| contradiction].
+    eapply IHfuel; [eapply extends_in_P; eauto | exact HI].
+  - eapply Z; eauto.
+Qed.
+
+Lemma alias_list_agree : forall (res res1 : cid -> akey -> option aval) fl,
+  (forall k t, In (k, t) fl -> forall a, res1 t a = res t a) ->
+  alias_list res1 fl = alias_list res fl.
+Proof.
+  induction fl as [| [k t] fl IH]; simpl; intros H; [reflexivity |].
+  rewrite !(H k t (or_introl eq_refl)). rewrite IH; [reflexivity |].
+  intros. eapply H. right. eauto.
+Qed.
+
 End Agree.
 
 (** in a well-formed store the classes below any bound that covers the store
